@@ -23,7 +23,7 @@ ASSUMPTIONS = ["(a)/(c): the polyline crossing finder (vp/ref/xgeom.py) locates 
                "cannot classify are discarded and counted", "(b): vp/ref/exactgeom.py Sturm sequences in Fractions"]
 CONFIGS = ['scipy']
 BUDGET = {'quick': 16000, 'thorough': 300000}
-REQUIRED = ['a:pre:queried', 'a:pre:from_reversed', 'a:special:arch', 'a:special:long_arc', 'a:kept', 'a:pair:AC', 'a:pair:CA', 'a:pair:LA', 'a:pair:QQ', 'a:pair:CC', 'a:arc_sweep0', 'a:arc_sweep1', 'b:kept',
+REQUIRED = ['a:axis_parallel_line', 'a:axis_parallel_line_vs_unrotated_ellipse', 'a:pre:queried', 'a:pre:from_reversed', 'a:special:arch', 'a:special:long_arc', 'a:kept', 'a:pair:AC', 'a:pair:CA', 'a:pair:LA', 'a:pair:QQ', 'a:pair:CC', 'a:arc_sweep0', 'a:arc_sweep1', 'b:kept',
             'b:count1', 'b:count2', 'b:count0', 'c:kept', 'b:count3']
 CASE_TIMEOUT = 20
 TIME_LIMIT = {'quick': 250, 'thorough': 3300}
@@ -196,6 +196,11 @@ def check_constructed(case, ctx):
         ctx.count('a:pre:from_reversed')
     pair = s1[0] + s2[0]
     ctx.count('a:kept')
+    for sp, other in ((s1, s2), (s2, s1)):
+        if sp[0] == 'L' and (sp[1][0] == sp[2][0] or sp[1][1] == sp[2][1]):
+            ctx.count('a:axis_parallel_line')
+            if other[0] == 'A' and other[3] % 360 == 0 and abs(other[2][0]) != abs(other[2][1]):
+                ctx.count('a:axis_parallel_line_vs_unrotated_ellipse')
     if case.get('special', 'none') != 'none':
         ctx.count('a:special:' + case['special'])
     ctx.count('a:pair:' + pair)
